@@ -236,8 +236,11 @@ def worker(batch):
             for (c, v), w, me, mp, ms, mw in zip(ok, want, m_emit, m_parse, m_scan, m_wild):
                 out["rest"] += 1
                 if v["back"] != w or v["extra_keys"]:
-                    out["items"].append(("C01/rest-domain/roundtrip", {"want": w, "got": v["back"], "extra_keys": v["extra_keys"], "text": v["text"]}, c))
+                    cls = "C01/rest-domain/type-invented-from-prose" if c.get("adhoc") else "C01/rest-domain/roundtrip"
+                    out["items"].append((cls, {"want": w, "got": v["back"], "extra_keys": v["extra_keys"], "text": v["text"]}, c))
                 for stage, a, b in (("emit", v["text"], me), ("parse", v["back"], mp), ("scan", v["scan_text"], ms), ("scan-any-text", v["scan_wild"], mw)):
+                    if stage == "parse" and c.get("adhoc"):
+                        continue        # ad hoc typing from the prose is not in Model/RestDoc.v
                     if a != b:
                         out["corr"].append({"stage": "RestDoc " + stage, "input": c, "impl": a, "model": b})
     for kind, payload in batch:
@@ -294,6 +297,9 @@ def collect(ctx, n_ir, n_sdd):
         work.append(("ir", (gen_ir(rng, style), style)))
     work += [("sdd", sdd_case(rng)) for _ in range(n_sdd)]
     work += [("rest", rest_case(rng)) for _ in range(n_sdd)]
+    # corpus: a description whose prose makes the parser invent a type (the candidate `name` is eval()ed inside
+    # __set_name_and_type_handle_doc_in_param, where `name` is a local variable)
+    work.append(("rest", {"doc": "Fetch it", "params": [["_private", ["name of bytes", None]]], "ret": None, "scan": "", "adhoc": True}))
     work += [("sweep", (rng.choice(["workers", "n", "batch_size"]), 5, "int")), ("sweep", ("label", "x", "str")),
              ("sweep", ("clip", rng.choice([1e+20, 2.5e+16, 0.5]), "float"))]
     agg = {"n": 0, "hops": 0, "clean": 0, "sdd": 0, "rest": 0}
